@@ -381,17 +381,15 @@ Definition json_read_strict : list N -> option jv := json_read_gen true false.  
 
 (* json.detect_encoding (json/__init__.py): UTF-16/32 by byte-order mark or by the position of NUL
    bytes among the first four; otherwise UTF-8, with an optional signature EF BB BF *)
-Definition utf8_sig (b : list N) : bool :=
-  match b with 239 :: 187 :: 191 :: _ => true | _ => false end.
+Definition starts (p b : list N) : bool := match lit p b with Some _ => true | None => false end.
+Definition utf8_sig (b : list N) : bool := starts [239; 187; 191] b.
 Definition std_utf8_branch (b : list N) : bool :=
-  match b with
-  | 255 :: 254 :: _ => false
-  | 254 :: 255 :: _ => false
-  | 0 :: 0 :: 254 :: 255 :: _ => false
-  | [b0; b1] => negb (b0 =? 0) && negb (b1 =? 0)
-  | b0 :: b1 :: _ :: _ :: _ => negb (b0 =? 0) && negb (b1 =? 0)
-  | _ => true
-  end.
+  if starts [255; 254] b || starts [254; 255] b || starts [0; 0; 254; 255] b then false
+  else match b with
+       | [b0; b1] => negb (b0 =? 0) && negb (b1 =? 0)
+       | b0 :: b1 :: _ :: _ :: _ => negb (b0 =? 0) && negb (b1 =? 0)
+       | _ => true
+       end.
 Definition std_loads (b : list N) : option jv :=
   if utf8_sig b then json_read (skipn 3 b) else json_read b.
 
